@@ -579,6 +579,63 @@ async fn c22_participant_leaves(ctx: Ctx) {
 }
 
 // ---- C16 -----------------------------------------------------------------------------------------------------------
+/// an endpoint created disabled (autoenable_created_entities = false) is not announced, so no remote endpoint is matched with
+/// it: its matched counts must stay 0 (or the getters answer NotEnabled) until enable(), and be 1 on both sides afterwards
+async fn c16_disabled_endpoint(ctx: Ctx, writer_side: bool) {
+    let f = ctx.factory("", None);
+    let n1 = node::<KeyedData>(&f, 0, "T").await;
+    let n2 = node::<KeyedData>(&f, 0, "T").await;
+    let fq = EntityFactoryQosPolicy { autoenable_created_entities: false };
+    let side = if writer_side { "writer" } else { "reader" };
+    if writer_side {
+        let publ = n1.participant.create_publisher(QosKind::Specific(PublisherQos { entity_factory: fq, ..Default::default() }), NO_LISTENER, NO_STATUS).await.expect("publisher");
+        let r = n2.subscriber.create_datareader::<KeyedData>(&n2.topic, QosKind::Specific(reliable_r(HistoryQosPolicyKind::KeepAll)), NO_LISTENER, NO_STATUS).await.expect("r");
+        let w = publ.create_datawriter::<KeyedData>(&n1.topic, QosKind::Specific(reliable_w(HistoryQosPolicyKind::KeepAll, Some(100))), NO_LISTENER, NO_STATUS).await.expect("w");
+        ctx.sleep_ms(1000).await;
+        let local = w.get_publication_matched_status().await.map(|s| s.current_count);
+        let remote = r.get_subscription_matched_status().await.map(|s| s.current_count).unwrap_or(-1);
+        ctx.obs(format!("disabled writer: local={local:?} remote={remote}"));
+        if remote != 0 {
+            ctx.violation(format!("disabled-endpoint/{side}/remote-matched-before-enable"), format!("the remote reader counts {remote} matched writers although the writer is not enabled"));
+        }
+        if let Ok(c) = local {
+            if c != 0 {
+                ctx.violation(format!("disabled-endpoint/{side}/counts-a-match-before-enable"), format!("a writer that is not enabled (never announced, matched by no reader: remote count {remote}) reports current_count={c}"));
+            }
+        }
+        w.enable().await.expect("enable");
+        ctx.sleep_ms(1000).await;
+        let local = w.get_publication_matched_status().await.map(|s| s.current_count).unwrap_or(-1);
+        let remote = r.get_subscription_matched_status().await.map(|s| s.current_count).unwrap_or(-1);
+        if local != 1 || remote != 1 {
+            ctx.violation(format!("disabled-endpoint/{side}/not-matched-after-enable"), format!("after enable(): writer current_count={local}, reader current_count={remote}, expected 1/1"));
+        }
+    } else {
+        let subs = n2.participant.create_subscriber(QosKind::Specific(SubscriberQos { entity_factory: fq, ..Default::default() }), NO_LISTENER, NO_STATUS).await.expect("subscriber");
+        let w = n1.publisher.create_datawriter::<KeyedData>(&n1.topic, QosKind::Specific(reliable_w(HistoryQosPolicyKind::KeepAll, Some(100))), NO_LISTENER, NO_STATUS).await.expect("w");
+        let r = subs.create_datareader::<KeyedData>(&n2.topic, QosKind::Specific(reliable_r(HistoryQosPolicyKind::KeepAll)), NO_LISTENER, NO_STATUS).await.expect("r");
+        ctx.sleep_ms(1000).await;
+        let local = r.get_subscription_matched_status().await.map(|s| s.current_count);
+        let remote = w.get_publication_matched_status().await.map(|s| s.current_count).unwrap_or(-1);
+        ctx.obs(format!("disabled reader: local={local:?} remote={remote}"));
+        if remote != 0 {
+            ctx.violation(format!("disabled-endpoint/{side}/remote-matched-before-enable"), format!("the remote writer counts {remote} matched readers although the reader is not enabled"));
+        }
+        if let Ok(c) = local {
+            if c != 0 {
+                ctx.violation(format!("disabled-endpoint/{side}/counts-a-match-before-enable"), format!("a reader that is not enabled (never announced, matched by no writer: remote count {remote}) reports current_count={c}"));
+            }
+        }
+        r.enable().await.expect("enable");
+        ctx.sleep_ms(1000).await;
+        let local = r.get_subscription_matched_status().await.map(|s| s.current_count).unwrap_or(-1);
+        let remote = w.get_publication_matched_status().await.map(|s| s.current_count).unwrap_or(-1);
+        if local != 1 || remote != 1 {
+            ctx.violation(format!("disabled-endpoint/{side}/not-matched-after-enable"), format!("after enable(): reader current_count={local}, writer current_count={remote}, expected 1/1"));
+        }
+    }
+}
+
 /// a remote participant with TWO readers matched to one local writer departs as a whole (lease expiry / ignored)
 async fn c16_two_readers_depart(ctx: Ctx, how: u8) {
     let f = ctx.factory("", Some(200));
@@ -1079,6 +1136,9 @@ pub fn extra(id: &str) -> Vec<Scenario> {
         "C16" => {
             for ws in [true, false] {
                 add("reannounce".into(), Scenario::new(format!("C16.audit[compatible-qos-update,writer_side={ws}]"), 0, move |ctx| c16_reannounce(ctx, ws)));
+            }
+            for ws in [true, false] {
+                add("disabled".into(), Scenario::new(format!("C16.audit[endpoint-created-disabled,writer_side={ws}]"), 0, move |ctx| c16_disabled_endpoint(ctx, ws)));
             }
             for (k, n) in [(0u8, "lease-expired"), (1, "ignored")] {
                 add(n.into(), Scenario::new(format!("C16.audit[participant-with-two-readers-departs,{n}]"), 0, move |ctx| c16_two_readers_depart(ctx, k)));
